@@ -37,8 +37,8 @@ func (db *GraphDB) BuildSchema(ctx context.Context, graphID string, sampleN uint
 			continue
 		}
 		g.Go(func() error {
-			q := fmt.Sprintf("SELECT * FROM %s WHERE label='%s'", graph.v, label)
-			rows, err := graph.db.QueryxContext(ctx, q)
+			q := fmt.Sprintf("SELECT * FROM %s WHERE label=$1", graph.v)
+			rows, err := graph.db.QueryxContext(ctx, q, label)
 			if err != nil {
 				log.WithFields(log.Fields{"error": err}).Error("BuildSchema: QueryxContext")
 				return err
@@ -80,12 +80,12 @@ func (db *GraphDB) BuildSchema(ctx context.Context, graphID string, sampleN uint
 
 		g.Go(func() error {
 			q := fmt.Sprintf(
-				"SELECT a.label, b.label, c.label, b.data FROM %s as a INNER JOIN %s as b ON b.to=a.gid INNER JOIN %s as c on b.from = c.gid WHERE b.label = '%s' limit %d",
+				"SELECT a.label, b.label, c.label, b.data FROM %s as a INNER JOIN %s as b ON b.to=a.gid INNER JOIN %s as c on b.from = c.gid WHERE b.label = $1 limit %d",
 				graph.v, graph.e, graph.v,
-				label, sampleN,
+				sampleN,
 			)
 			//fmt.Printf("Query: %s\n", q)
-			rows, err := graph.db.QueryxContext(ctx, q)
+			rows, err := graph.db.QueryxContext(ctx, q, label)
 			if err != nil {
 				log.WithFields(log.Fields{"error": err}).Error("BuildSchema: QueryxContext")
 				return err
